@@ -48,6 +48,19 @@ func firstLine(s string) string {
 	return s
 }
 
+// sigBlame shortens a blame chain to its root-cause part: once a value was wrapped into an option
+// unchecked nothing below is looked at, and above the last two steps the position is irrelevant.
+func sigBlame(b string) string {
+	if strings.Contains(b, "wrap>") {
+		return "wrap>*"
+	}
+	parts := strings.Split(b, ">")
+	if len(parts) > 2 {
+		parts = parts[len(parts)-2:]
+	}
+	return strings.Join(parts, ">")
+}
+
 func prefix(s string, n int) string {
 	s = firstLine(s)
 	if len(s) > n {
@@ -173,13 +186,13 @@ func checkAPI(c APICase) *pk.Failure {
 	}
 	if r.Admitted {
 		if vd.MustNot {
-			return pk.Failf(sub, c.Lib+":admitted-not-convertible:"+vd.Tr.Blame, "%s (%s)\n  admitted as %s", head, vd.Tr.Blame, show(r.Res))
+			return pk.Failf(sub, c.Lib+":admitted-not-convertible:"+sigBlame(vd.Tr.Blame), "%s (%s)\n  admitted as %s", head, vd.Tr.Blame, show(r.Res))
 		}
 		if r.Res == nil {
 			return pk.Failf(sub, c.Lib+":admitted-no-value", "%s\n  admitted, but the result is nil / has no value", head)
 		}
 		if !hs.Conforms(r.Res, t) {
-			return pk.Failf(sub, c.Lib+":admitted-nonconforming-result:"+nonconf(r.Res, t), "%s\n  admitted as %s, which is not a %s (%s)", head, show(r.Res), t.Src(), nonconf(r.Res, t))
+			return pk.Failf(sub, c.Lib+":admitted-nonconforming-result:"+sigBlame(resultBlame(v, r.Res, t, nil)), "%s\n  admitted as %s, which is not a %s (%s)", head, show(r.Res), t.Src(), resultBlame(v, r.Res, t, nil))
 		}
 		if vd.Must && !valEqual(r.Res, v) {
 			return pk.Failf(sub, c.Lib+":conforming-changed", "%s\n  a value of type T was admitted as a different value %s", head, show(r.Res))
@@ -268,7 +281,7 @@ func checkJSON(c JSONCase) *pk.Failure {
 		return pk.Failf(sub, "json:admitted-no-value", "%s\n  admitted, but the result is nil / has no value", head)
 	}
 	if !hs.Conforms(res, t) {
-		return pk.Failf(sub, "json:admitted-nonconforming-result:"+nonconf(res, t), "%s\n  admitted as %s, which is not a %s (%s)", head, show(res), t.Src(), nonconf(res, t))
+		return pk.Failf(sub, "json:admitted-nonconforming-result:"+sigBlame(resultBlame(v, res, t, nil)), "%s\n  admitted as %s, which is not a %s (%s)", head, show(res), t.Src(), resultBlame(v, res, t, nil))
 	}
 	if !vd.ValueKnown {
 		pk.Class("doubt:conversion-value")
@@ -328,7 +341,7 @@ func checkProg(c ProgCase) *pk.Failure {
 	resp := px.Pool().Exec(pc.Request(c.Backend))
 	if f := px.SandboxFailure(sub, resp); f != nil {
 		if vd.MustNot {
-			f.Sig = c.Backend + ":host-crash-on-nonconforming:" + vd.Tr.Blame + "|" + f.Sig
+			f.Sig = c.Backend + ":host-crash-on-nonconforming:" + sigBlame(vd.Tr.Blame) + "|" + f.Sig
 		} else {
 			f.Sig = c.Backend + ":host-crash:" + vd.word() + ":" + vd.convClass() + "|" + f.Sig
 		}
@@ -359,7 +372,7 @@ func checkProg(c ProgCase) *pk.Failure {
 	switch {
 	case strings.HasPrefix(out, "ADMITTED\n"):
 		if vd.MustNot {
-			return pk.Failf(sub, c.Backend+":admitted-not-convertible:"+vd.Tr.Blame, "%s\n  admitted (%s); output %q, outcome %s %q", head(), vd.Tr.Blame, out, ocText, oc.Message)
+			return pk.Failf(sub, c.Backend+":admitted-not-convertible:"+sigBlame(vd.Tr.Blame), "%s\n  admitted (%s); output %q, outcome %s %q", head(), vd.Tr.Blame, out, ocText, oc.Message)
 		}
 		if oc.Class != "ok" || !strings.HasSuffix(out, "USED\nAFTER\n") {
 			return pk.Failf(sub, c.Backend+":admitted-then-failed:"+vd.word()+":"+vd.convClass()+":"+ocText, "%s\n  admitted, but the typed uses did not complete: output %q, outcome %s %q", head(), out, ocText, oc.Message)
@@ -509,7 +522,7 @@ func checkHost(c HostCase) *pk.Failure {
 
 	// whatever happened: a returned value has the declared type
 	if inv.Ret.V != nil && !hs.Conforms(inv.Ret.V, c.Ret) {
-		return pk.Failf(sub, "ret-nonconforming:"+nonconf(inv.Ret.V, c.Ret), "%s\n  the host received %s, which is not a %s\n  %s", head(), show(inv.Ret.V), c.Ret.Src(), how)
+		return pk.Failf(sub, "ret-nonconforming:"+sigBlame(nonconf(inv.Ret.V, c.Ret)), "%s\n  the host received %s, which is not a %s\n  %s", head(), show(inv.Ret.V), c.Ret.Src(), how)
 	}
 	if anyNot {
 		if !failed {
@@ -587,7 +600,7 @@ func checkHost(c HostCase) *pk.Failure {
 	switch {
 	case retV.MustNot:
 		if !failed {
-			return pk.Failf(sub, "bad-ret-accepted:"+retV.Tr.Blame, "%s\n  the result does not have the declared return type, yet the call succeeded\n  %s", head(), how)
+			return pk.Failf(sub, "bad-ret-accepted:"+sigBlame(retV.Tr.Blame), "%s\n  the result does not have the declared return type, yet the call succeeded\n  %s", head(), how)
 		}
 	case retV.Must:
 		if failed {
@@ -628,7 +641,7 @@ func classify(p Pair, vd Verdict, route string) {
 			nearDepth++
 		}
 	}
-	if typeDepth(p.T) >= 2 || (strings.Contains(p.Class, "near:") && nearDepth >= 1) {
+	if typeDepth(p.T) >= 2 || (strings.HasPrefix(p.Class, "near:") && nearDepth >= 1) {
 		pk.NonTrivial(route+"|"+p.T.Canon()+"|"+show(p.V.V), map[string]any{"route": route, "type": p.T.Src(), "value": show(p.V.V), "class": p.Class, "oracle": vd.word()})
 	}
 }
